@@ -205,7 +205,17 @@ pub fn run_d(seed: u64, ntraces: usize, only: Option<u64>) {
                   g.its_tx("deployRemoteCanonical", &u0, "deployRemoteCanonicalInterchainToken", vec![tok.clone(), b"ethereum".to_vec()], 444, &[], json!({"token": hx(&tok), "dchain": hx(b"ethereum")})); } }
             script.extend([22u64, 22, 48, 49, 44, 48, 44, 44, 76, 44, 9]);   // then: a stale operatorship proposal (propose, hand the role on, accept), and a fresh one accepted twice
         }
-        if d == 9 {   // F-C17-5: empty destination chain: the callback falls into the local branch
+        if d == 9 {
+            // first: the canonical EGLD token with 60 EGLD in its manager's custody -- an inbound transfer WITH DATA of it is delivered, the destination fails,
+            // the failure callback must return the EGLD to the manager (as EGLD, not as an ESDT of that name), the message is executed again and succeeds
+            { let u1 = g.users[1].clone(); let eg = b"EGLD".to_vec();
+              let (oke, retse, depe) = g.its_tx("registerCanonical", &u1, "registerCanonicalInterchainToken", vec![eg.clone()], 0, &[], json!({"token": hx(&eg)}));
+              if oke { let tide = retse.last().unwrap().clone();
+                  g.toks.push(Tok { id: tide.clone(), kind: "lock", tm: depe.unwrap(), token: Some(eg.clone()), salt: vec![], deployer: u1.clone(), supply: 0, minter: vec![], custody: 60 });
+                  g.its_tx("transfer", &u1, "interchainTransfer", vec![tide.clone(), b"ethereum".to_vec(), b"0xdead".to_vec(), vec![], vec![]], 60, &[],
+                      json!({"token_id": hx(&tide), "dchain": hx(b"ethereum"), "daddr": hx(b"0xdead"), "metadata": "", "gas": "0"}));
+                  script.extend([1700u64, 21, 20, 197, 25, 20]); } }
+            // F-C17-5: empty destination chain: the callback falls into the local branch
             let u = g.users[0].clone();
             let (ok, rets, dep) = g.its_tx("registerCanonical", &u, "registerCanonicalInterchainToken", vec![tok.clone()], 0, &[], json!({"token": hx(&tok)}));
             if ok {
@@ -243,7 +253,12 @@ pub fn run_d(seed: u64, ntraces: usize, only: Option<u64>) {
                 let e = vec![(tok.clone(), 0u64, bn(200))];
                 g.its_tx("transfer", &u, "interchainTransfer", vec![tid.clone(), b"ethereum".to_vec(), b"0xdead".to_vec(), vec![], vec![]], 0, &e,
                     json!({"token_id": hx(&tid), "dchain": hx(b"ethereum"), "daddr": hx(b"0xdead"), "metadata": "", "gas": "0"}));
-                if d == 1 { script.extend([190u64, 191, 192, 190, 90, 91, 92]); }
+                if d == 1 { script.extend([190u64, 191, 192, 190, 90, 91, 92]);
+                    // a metadata registration by users[1] whose lookup reports a NON-FUNGIBLE token (gas returned to users[1]); afterwards users[0] sends tokens out with gas:
+                    // nothing of the earlier call may show in the later one (refund address = users[0])
+                    let u1 = g.users[1].clone();
+                    g.its_tx("registerMetadata", &u1, "registerTokenMetadata", vec![tok2.clone()], 555, &[], json!({"token": hx(&tok2)}));
+                    script.extend([29u64, 93]); }
                 else if d == 6 {
                     // a metadata registration is in flight when the owner pauses: its (successful) lookup callback still forwards the gas
                     let u1 = g.users[1].clone();
@@ -292,6 +307,9 @@ pub fn run_d(seed: u64, ntraces: usize, only: Option<u64>) {
                 }
                 else if d == 14 {   // inbound deployment in two steps with the nominated minter calling the new manager directly in between
                     script.extend([193u64, 199, 45, 194, 23, 194, 45, 196]);
+                    // ... then a second inbound deployment whose FIRST step runs before the owner pauses and whose SECOND step (the issuance, with the issue cost) is tried while paused:
+                    // refused, nothing consumed; after unpausing the same call is accepted
+                    script.extend([193u64, 10, 194, 10, 194, 23]);
                 }
                 else if d == 16 {   // the nominated minter already holds minter and operator roles when the hand-over of the third step runs
                     { let u2 = g.users[2].clone();      // first: a metadata registration carrying 1e19 wei of cross-chain gas (more than 2^63); its lookup succeeds
@@ -326,8 +344,8 @@ pub fn run_d(seed: u64, ntraces: usize, only: Option<u64>) {
             let scripted = !script.is_empty();
             let a = if !script.is_empty() { script.remove(0) } else if has_pending && r.chance(1, 2) { 20 } else { *r.pick(&[0u64, 1, 2, 3, 3, 3, 4, 4, 4, 5, 5, 5, 6, 6, 6, 7, 7, 7, 7, 8, 9, 10, 11, 12, 12, 13, 14, 14, 15, 16, 17, 18, 19, 19, 26, 26]) };
             let a_raw = a; let a = if a == 56 || a == 57 || a == 77 || a == 78 { 0 } else if a == 58 { 1 } else if (59..=61).contains(&a) { 17 } else if a == 198 { 1600 } else { a };
-            let force_fail = a == 21; let force_props_ok = a == 22; let force_issue_ok = a == 23; let force_cb = a == 24; let force_ok = a == 25; let force_issue_fail = a == 27;
-            let a = if a == 21 || a == 22 || a == 23 || a == 24 || a == 25 || a == 27 { 20 } else { a };
+            let force_fail = a == 21; let force_props_ok = a == 22; let force_props_nonfungible = a == 29; let force_issue_ok = a == 23; let force_cb = a == 24; let force_ok = a == 25; let force_issue_fail = a == 27;
+            let a = if a == 21 || a == 22 || a == 23 || a == 24 || a == 25 || a == 27 || a == 29 { 20 } else { a };
             // 1<a><vv>: inbound message kind a (6, 7, 8) in routing variant vv; 20<i> / 21<i>: message-type word i (direct / hub-wrapped); 3<shape><chain> / 35..: outbound transfer / call; 190..192: inbound link / deploy for an already bound token id (direct, hub-wrapped, deploy)
             let mut fvar: Option<u64> = None; let mut fbound: Option<u64> = None;
             let mut ftype: Option<u64> = None; let mut fshape: Option<(u64, u64)> = None;
@@ -384,6 +402,12 @@ pub fn run_d(seed: u64, ntraces: usize, only: Option<u64>) {
                 if a == 90 { g.its_tx("setTrusted", &opr, "setTrustedAddress", vec![b"avalanche".to_vec(), b"0xByOperator".to_vec()], 0, &[], json!({"chain": hx(b"avalanche"), "a": hx(b"0xByOperator")})); }
                 else if a == 91 { g.its_tx("removeTrusted", &opr, "removeTrustedAddress", vec![b"ethereum".to_vec()], 0, &[], json!({"chain": hx(b"ethereum")})); }
                 else { let p = !g.paused; let (ok, _, _) = g.its_tx("pause", &opr, if p { "pause" } else { "unpause" }, vec![], 0, &[], json!({"paused": p})); if ok { g.paused = p; } }
+                continue; }
+            if a == 93 { // users[0] sends the first token out with gas taken from the same payment (13 paid, 4 of it gas): the gas service names the SENDER as refund address
+                if let Some(tk) = g.toks.first() { let (tid, ttok) = (tk.id.clone(), tk.token.clone().unwrap_or(tok.clone())); let u = g.users[0].clone();
+                    let e = vec![(ttok.clone(), 0u64, bn(13))];
+                    g.its_tx("transfer", &u, "interchainTransfer", vec![tid.clone(), b"ethereum".to_vec(), b"0xdestination".to_vec(), vec![], big(4)], 0, &e,
+                        json!({"token_id": hx(&tid), "dchain": hx(b"ethereum"), "daddr": hx(b"0xdestination"), "metadata": "", "gas": "4"})); }
                 continue; }
             if a == 85 { // an approved transfer of amount ZERO naming a token id nobody registered: refused like any unknown id, the approval stays
                 g.msg += 1; let id = format!("msg-{}", g.msg).into_bytes(); let tidz = r.bytes(32);
@@ -798,7 +822,7 @@ pub fn run_d(seed: u64, ntraces: usize, only: Option<u64>) {
                             true
                         }
                         PKind::Props(ac, kind) => {
-                            let which = if force_props_ok { 3 } else { r.below(6) };
+                            let which = if force_props_ok { 3 } else if force_props_nonfungible { 1 } else { r.below(6) };
                             let other_ty: &[u8] = *r.pick(&[&b"NonFungibleESDT"[..], b"SemiFungibleESDT", b"MetaESDT", b"DynamicNonFungibleESDT", b"NonFungibleESDTv2", b""]);
                             let (forged, resj) = match which {
                                 0 => (TxResult { result_status: 4, result_message: "no such token".to_string(), ..TxResult::empty() }, Value::Null),
